@@ -20,6 +20,12 @@ Proof.
   - intros H. destruct (str_eqb a b) eqn:E; [|reflexivity]. apply str_eqb_eq in E. contradiction.
 Qed.
 
+Lemma str_eqb_sym a b : str_eqb a b = str_eqb b a.
+Proof.
+  revert b; induction a as [|x a IH]; intros [|y b]; cbn; try reflexivity.
+  now rewrite N.eqb_sym, IH.
+Qed.
+
 Lemma mem_app c a b : mem c (a ++ b) = mem c a || mem c b.
 Proof. induction a as [|x a IH]; cbn; [reflexivity|]. now rewrite IH, orb_assoc. Qed.
 
